@@ -47,6 +47,22 @@ Qed.
 Lemma rem1_head x H : rem1 x (x :: H) = H.
 Proof. cbn [rem1]. destruct (hold_eqb_spec x x); [reflexivity|contradiction]. Qed.
 
+Fixpoint sub_ok (xs H : list hold) : Prop :=
+  match xs with [] => True | x :: r => In x H /\ sub_ok r (rem1 x H) end.
+
+Lemma sub_ok_perm xs : forall H B, Permutation H (xs ++ B) -> sub_ok xs H.
+Proof.
+  induction xs as [|x r IH]; intros H B P; cbn [sub_ok]; [exact I|]. split.
+  - eapply Permutation_in; [symmetry; exact P|]. now left.
+  - apply (IH _ B). apply rem1_perm. exact P.
+Qed.
+
+Lemma sub_ok_app a : forall b H, sub_ok (a ++ b) H <-> sub_ok a H /\ sub_ok b (rel_all a H).
+Proof.
+  induction a as [|x r IH]; intros b H; cbn [app sub_ok rel_all fold_left]; [tauto|].
+  rewrite IH. unfold rel_all. tauto.
+Qed.
+
 Section A.
 Variable bl : list hold -> lock -> Prop.
 Notation wp := (wp bl).
@@ -79,10 +95,10 @@ Proof.
 Qed.
 
 Lemma wp_leaf_unlock m k l H K Qr Qt QF :
-  Qr VUnit (rem1 (hold_of m (k, l)) H) K -> wp (leaf_unlock m k l) H K Qr Qt QF.
+  In (hold_of m (k, l)) H -> Qr VUnit (rem1 (hold_of m (k, l)) H) K -> wp (leaf_unlock m k l) H K Qr Qt QF.
 Proof.
-  intros Q. unfold leaf_unlock, hold_of in *. cbn [fst snd] in *. rewrite <- hx_rel in Q.
-  cbn [Wp.wp op_]. destruct k, m; cbn [rel_op rop_ex] in *; assumption.
+  intros I Q. unfold leaf_unlock, hold_of in *. cbn [fst snd] in *. rewrite <- hx_rel in I, Q.
+  cbn [Wp.wp op_]. destruct k, m; cbn [rel_op rop_ex] in *; split; assumption.
 Qed.
 
 (* ---------------------------------------------------------------- sequences *)
@@ -90,43 +106,38 @@ Lemma wp_then a b H K Qr Qt QF :
   wp a H K (fun _ H' K' => wp b H' K' Qr Qt QF) Qt QF -> wp (a ;; b) H K Qr Qt QF.
 Proof. intros W. unfold pthen. cbn [Wp.wp]. exact W. Qed.
 
-Lemma wp_seqs_map {X} (f : X -> prog) (g : X -> list hold -> list hold) (xs : list X) :
-  Forall (fun x => forall H K Qr Qt QF, Qr VUnit (g x H) K -> wp (f x) H K Qr Qt QF) xs ->
-  forall H K Qr Qt QF, Qr VUnit (fold_left (fun h x => g x h) xs H) K -> wp (seqs (map f xs)) H K Qr Qt QF.
+Definition unlock_spec (m : mode) (x : rawref) : Prop :=
+  forall H K Qr Qt QF, sub_ok (holds_of m (rleaves x)) H -> Qr VUnit (rel_all (holds_of m (rleaves x)) H) K ->
+                       wp (rr_unlock m x) H K Qr Qt QF.
+
+Lemma wp_unlock_seq m rs : Forall (unlock_spec m) rs ->
+  forall H K Qr Qt QF, sub_ok (holds_of m (rsleaves rs)) H -> Qr VUnit (rel_all (holds_of m (rsleaves rs)) H) K ->
+                       wp (seqs (map (rr_unlock m) rs)) H K Qr Qt QF.
 Proof.
-  induction 1 as [|x r Hx Hr IH]; intros H K Qr Qt QF Q; cbn [map seqs fold_left] in *.
+  induction 1 as [|x r Hx Hr IH]; intros H K Qr Qt QF S Q; cbn [map seqs].
   - exact Q.
-  - apply wp_then. apply Hx. apply IH. exact Q.
+  - rewrite rsleaves_cons, holds_of_app in S, Q. apply sub_ok_app in S. destruct S as [S1 S2]. rewrite rel_all_app in Q.
+    apply wp_then. apply Hx; [exact S1|]. apply IH; assumption.
 Qed.
 
-Lemma rel_all_flat (m : mode) (rs : list rawref) H :
-  fold_left (fun h x => rel_all (holds_of m (rleaves x)) h) rs H = rel_all (holds_of m (rsleaves rs)) H.
+Lemma wp_rr_unlock m r : unlock_spec m r.
 Proof.
-  revert H. induction rs as [|x r IH]; intros H; cbn [fold_left rsleaves flat_map]; [reflexivity|].
-  rewrite IH. fold (rsleaves r). rewrite holds_of_app, rel_all_app. reflexivity.
-Qed.
-
-Lemma wp_rr_unlock m r : forall H K Qr Qt QF,
-  Qr VUnit (rel_all (holds_of m (rleaves r)) H) K -> wp (rr_unlock m r) H K Qr Qt QF.
-Proof.
-  induction r as [k l|u inner IH] using rawref_ind2; intros H K Qr Qt QF Q.
-  - cbn [rr_unlock]. apply wp_leaf_unlock. exact Q.
-  - cbn [rr_unlock]. apply (wp_seqs_map (rr_unlock m) (fun x h => rel_all (holds_of m (rleaves x)) h)); [exact IH|].
-    rewrite rel_all_flat. exact Q.
+  induction r as [k l|u inner IH] using rawref_ind2; intros H K Qr Qt QF S Q.
+  - cbn [rr_unlock rleaves holds_of map sub_ok rel_all fold_left] in *. apply wp_leaf_unlock; [exact (proj1 S)|exact Q].
+  - cbn [rr_unlock rleaves]. apply (wp_unlock_seq m inner IH); assumption.
 Qed.
 
 Lemma wp_unlock_list m rs H K Qr Qt QF :
-  Qr VUnit (rel_all (holds_of m (rsleaves rs)) H) K -> wp (seqs (map (rr_unlock m) rs)) H K Qr Qt QF.
+  sub_ok (holds_of m (rsleaves rs)) H -> Qr VUnit (rel_all (holds_of m (rsleaves rs)) H) K ->
+  wp (seqs (map (rr_unlock m) rs)) H K Qr Qt QF.
 Proof.
-  intros Q. apply (wp_seqs_map (rr_unlock m) (fun x h => rel_all (holds_of m (rleaves x)) h)).
-  - apply Forall_forall. intros x _. apply wp_rr_unlock.
-  - rewrite rel_all_flat. exact Q.
+  intros S Q. apply wp_unlock_seq; [|exact S|exact Q]. apply Forall_forall. intros x _. apply wp_rr_unlock.
 Qed.
 
 (* recover: the releases cannot panic here, its handler is never run *)
 Lemma wp_recover m rs H K Qr Qt QF :
-  Qr VUnit (rel_all (holds_of m (rsleaves rs)) H) K -> wp (recover m rs) H K Qr Qt QF.
-Proof. intros Q. unfold recover. cbn [Wp.wp]. apply wp_unlock_list. exact Q. Qed.
+  sub_ok (holds_of m (rsleaves rs)) H -> Qr VUnit (rel_all (holds_of m (rsleaves rs)) H) K -> wp (recover m rs) H K Qr Qt QF.
+Proof. intros S Q. unfold recover. cbn [Wp.wp]. apply wp_unlock_list; assumption. Qed.
 
 (* ---------------------------------------------------------------- blocking acquisition in listed order *)
 Lemma wp_ordered_lock_from m (lk : rawref -> prog) todo :
@@ -182,8 +193,9 @@ Proof.
         rewrite !app_assoc. apply Permutation_app_tail. apply Permutation_app_comm.
       * intros H2 P2. apply Q1. rewrite <- app_assoc in P2. exact P2.
       * exact Q2.
-    + intros H' P'. cbn [vtrue]. apply wp_then. cbn [Wp.wp]. apply wp_unlock_list. cbn [Wp.wp]. apply Q2.
-      apply rel_all_perm. now rewrite P'.
+    + intros H' P'. cbn [vtrue]. apply wp_then. cbn [Wp.wp]. apply wp_unlock_list.
+      * apply (sub_ok_perm _ _ H0). now rewrite P'.
+      * cbn [Wp.wp]. apply Q2. apply rel_all_perm. now rewrite P'.
 Qed.
 
 Lemma wp_retry_try_from m (tr : rawref -> prog) todo :
@@ -202,8 +214,9 @@ Proof.
         rewrite !app_assoc. apply Permutation_app_tail. apply Permutation_app_comm.
       * intros H2 P2. apply Q1. rewrite <- app_assoc in P2. exact P2.
       * exact Q2.
-    + intros H' P'. cbn [vtrue]. apply wp_then. cbn [Wp.wp]. apply wp_recover. cbn [Wp.wp]. apply Q2.
-      apply rel_all_perm. now rewrite P'.
+    + intros H' P'. cbn [vtrue]. apply wp_then. cbn [Wp.wp]. apply wp_recover.
+      * apply (sub_ok_perm _ _ H0). now rewrite P'.
+      * cbn [Wp.wp]. apply Q2. apply rel_all_perm. now rewrite P'.
 Qed.
 
 Lemma rr_try_spec m r : try_spec m (rr_try m) r.
@@ -290,12 +303,14 @@ Proof.
         replace (Nat.leb (S i) first) with (Nat.leb i first)
           by (destruct (Nat.leb_spec i first), (Nat.leb_spec (S i) first); try reflexivity; lia).
         rewrite !app_assoc. apply Permutation_app_tail. apply Permutation_app_comm.
-      * intros H' P'. cbn [vtrue]. apply wp_then. cbn [Wp.wp]. apply wp_then. apply wp_recover.
-        assert (Z : rel_all (if Nat.leb i first then holds_of m (rleaves (nthr first locks)) else [])
-                            (rel_all (holds_of m (rsleaves (firstn i locks))) H') = []).
-        { rewrite <- rel_all_app. apply rel_all_perm_nil. now rewrite P'. }
+      * intros H' P'. cbn [vtrue]. apply wp_then. cbn [Wp.wp]. apply wp_then.
+        assert (PA : Permutation H' (holds_of m (rsleaves (firstn i locks)) ++
+                                     (if Nat.leb i first then holds_of m (rleaves (nthr first locks)) else []))) by (now rewrite P').
+        pose proof (rel_all_perm _ _ _ PA) as PB.
+        pose proof (rel_all_perm_nil _ _ PB) as Z.
+        apply wp_recover; [apply (sub_ok_perm _ _ _ PA)|].
         destruct (Nat.leb i first).
-        -- apply wp_rr_unlock. rewrite Z. cbn [Wp.wp]. apply Hag. exact Li.
+        -- apply wp_rr_unlock; [apply (sub_ok_perm _ _ []); now rewrite app_nil_r|]. rewrite Z. cbn [Wp.wp]. apply Hag. exact Li.
         -- cbn [rel_all fold_left] in Z. rewrite Z. cbn [Wp.wp skip]. apply Hag. exact Li.
 Qed.
 
@@ -362,12 +377,13 @@ Proof.
 Qed.
 
 Lemma wp_raw_unlock m a H K Qr Qt QF :
+  sub_ok (holds_of m (alg_leaves a)) H ->
   Qr VUnit (rel_all (holds_of m (alg_leaves a)) H) K -> wp (raw_unlock m a) H K Qr Qt QF.
 Proof.
-  intros Q. destruct a as [k l|rs|rs|]; cbn [raw_unlock alg_leaves alg_refs] in *.
-  - apply wp_leaf_unlock. simpl in Q. exact Q.
-  - apply wp_unlock_list. exact Q.
-  - apply wp_unlock_list. exact Q.
+  intros S Q. destruct a as [k l|rs|rs|]; cbn [raw_unlock alg_leaves alg_refs] in *.
+  - apply wp_leaf_unlock; [simpl in S; exact (proj1 S)|]. simpl in Q. exact Q.
+  - apply wp_unlock_list; assumption.
+  - apply wp_unlock_list; assumption.
   - exact Q.
 Qed.
 
